@@ -304,3 +304,30 @@ type section struct {
 var sections []section
 
 func register(name string, fn func()) { sections = append(sections, section{name, fn}) }
+
+// chanCap finds `field: make(chan T, n)` in a composite literal of file rel and returns n (0 when the channel is unbuffered).
+func chanCap(rel, field string) int64 {
+	f := file(rel)
+	var found *ast.CallExpr
+	ast.Inspect(f, func(n ast.Node) bool {
+		kv, ok := n.(*ast.KeyValueExpr)
+		if !ok {
+			return true
+		}
+		if id, ok := kv.Key.(*ast.Ident); ok && id.Name == field {
+			if call, ok := kv.Value.(*ast.CallExpr); ok {
+				if fn, ok := call.Fun.(*ast.Ident); ok && fn.Name == "make" {
+					found = call
+				}
+			}
+		}
+		return true
+	})
+	if found == nil {
+		die("%s: no `%s: make(chan ...)` found", rel, field)
+	}
+	if len(found.Args) < 2 {
+		return 0
+	}
+	return evalInt(rel, found.Args[1])
+}
